@@ -148,6 +148,20 @@ def run(chk):
         jrows = [[str(x), str(y)] for x, y in zip(dfn["c1"], dfn["c2"])]
         expect({"op": "pc_table", "rows": jrows}, lambda d=dfn: float(st.pc(d)), "pc[table-numeric]", {"rows": jrows}, True)
         expect({"op": "pc_joint", "rows": jrows, "sep": "_"}, lambda d=dfn: float(st.pc_joint(d, ["c1", "c2"])), "pc_joint[numeric]", {"rows": jrows}, True)
+    # two tables cut from ONE parent table with an integer column beside a float column, where only one of the two holds a missing
+    # cell: a row's label must depend on the row alone (not on whether its table has a missing value elsewhere)
+    for _ in range(10 if not thorough else 80):
+        n = rng.randint(4, 9)
+        parent = pd.DataFrame({"i": [rng.choice([0, 1, 2]) for _ in range(n)], "f": [rng.choice([0.5, 1.5]) for _ in range(n)]})
+        k_ = rng.randint(1, n - 1)
+        parent.loc[rng.randrange(k_), "f"] = float("nan")          # the first part gets a missing cell, the second has none
+        d1, d2 = parent.iloc[:k_], parent.iloc[k_:]
+        cellnum = lambda v: None if (isinstance(v, float) and np.isnan(v)) else repr(float(v))  # noqa
+        j1 = [[cellnum(x), cellnum(y)] for x, y in zip(d1["i"].tolist(), d1["f"].tolist())]
+        j2 = [[cellnum(x), cellnum(y)] for x, y in zip(d2["i"].tolist(), d2["f"].tolist())]
+        for sw, (da, db, ja, jb) in enumerate(((d1, d2, j1, j2), (d2, d1, j2, j1))):
+            expect({"op": "pc_joint", "rows": ja, "rows2": jb, "sep": "_"}, lambda da=da, db=db: float(st.pc_joint(da, ["i", "f"], db)),
+                   "pc_joint2[int-beside-float, one table with a missing cell]", {"rows": ja, "rows2": jb}, True)
     # numeric cells that need every digit: close floats, large integers beside a float column, an integer column
     # that pandas upcasts to float because of a missing value
     for _ in range(12 if not thorough else 120):
@@ -227,6 +241,31 @@ def run(chk):
         sc = pd.Series(be, index=perm)
         expect({"op": "pc_table", "rows": jrows}, lambda al=al, sc=sc: float(st.pc((pd.Series(al), sc))), "pc[tuple-of-series-permuted]", {"rows": jrows}, True)
 
+    # tables whose columns share a label (two chains concatenated side by side, v / j / v): every column counts
+    for _ in range(8 if not thorough else 60):
+        n = rng.randint(3, 8)
+        c1 = [rng.choice(["CA", "CB", "CC"]) for _ in range(n)]
+        c2 = [rng.choice(["x", "y"]) for _ in range(n)]
+        c3 = [rng.choice(["CA", "CB"]) for _ in range(n)]
+        dup = pd.concat([pd.Series(c1, name="cdr3"), pd.Series(c2, name="j"), pd.Series(c3, name="cdr3")], axis=1)
+        jrows = [[a_, b_, c_] for a_, b_, c_ in zip(c1, c2, c3)]
+        expect({"op": "pc_table", "rows": jrows}, lambda d=dup: float(st.pc(d)), "pc[table-duplicate-column-labels]", {"rows": jrows}, True)
+        k_ = rng.randint(1, n - 1)
+        expect({"op": "pc_table", "rows": jrows[:k_], "rows2": jrows[k_:]}, lambda d=dup, k_=k_: float(st.pc(d.iloc[:k_], d.iloc[k_:])),
+               "pc2[table-duplicate-column-labels]", {"rows": jrows[:k_], "rows2": jrows[k_:]}, True)
+    # the legacy (alphas, betas) tuple form in the TWO-sample call, any number of rows on either side, also against a table
+    for _ in range(8 if not thorough else 60):
+        n1, n2 = rng.randint(1, 6), rng.randint(1, 6)
+        a1 = [rng.choice(["CA", "CB"]) for _ in range(n1)]
+        b1 = [rng.choice(["CX", "CY"]) for _ in range(n1)]
+        a2 = [rng.choice(["CA", "CB"]) for _ in range(n2)]
+        b2 = [rng.choice(["CX", "CY"]) for _ in range(n2)]
+        j1, j2 = [[x, y] for x, y in zip(a1, b1)], [[x, y] for x, y in zip(a2, b2)]
+        t2 = pd.DataFrame({"CDR3A": a2, "CDR3B": b2})
+        expect({"op": "pc_table", "rows": j1, "rows2": j2}, lambda a1=a1, b1=b1, a2=a2, b2=b2: float(st.pc((a1, b1), (a2, b2))), "pc2[tuple-tuple]",
+               {"rows": j1, "rows2": j2}, True)
+        expect({"op": "pc_table", "rows": j1, "rows2": j2}, lambda a1=a1, b1=b1, t2=t2: float(st.pc((a1, b1), t2)), "pc2[tuple-table]",
+               {"rows": j1, "rows2": j2}, True)
     ans = core.run_driver_parallel(ops)
     for (real, label, meta, nt), a, op in zip(checks, ans, ops):
         chk.case(sample={"label": label, **{k: v for k, v in meta.items() if len(str(v)) < 200}} if chk.evaluations % 150 == 0 else None,
